@@ -132,6 +132,31 @@ fn p_encode_zst_payload() {
     drop(back);
     assert!(drops() == 1, "C13 the success value is dropped exactly once");
 }
+struct Pbig([u64; 24]);
+#[repr(align(64))]
+struct Pal { v: u32, heap: Box<u8> }
+impl Drop for Pal { fn drop(&mut self) { unsafe { DROPS += 1 } } }
+fn roundtrip_class<T>(mk: fn() -> T, counted: bool) {
+    let e = any_code();
+    let is_ok: bool = kani::any();
+    let res: Result<T, Code> = if is_ok { Ok(mk()) } else { Err(e) };
+    let mut slot = MaybeUninit::<T>::uninit();
+    let code = into_int_out_result(res, &mut slot);
+    assert!((code == 0) == is_ok, "C13 0 exactly for Ok (any payload class)");
+    assert!(drops() == 0, "C13 encoding drops nothing (any payload class)");
+    let back: Result<T, Code> = unsafe { from_int_result(code, slot) };
+    assert!(back.is_ok() == is_ok && drops() == 0, "C13 decoding moves the value out without dropping; Err reads nothing (any payload class)");
+    if let Err(e2) = &back { assert!(*e2 == e, "C13 error code preserved"); }
+    drop(back);
+    assert!(drops() == (is_ok && counted) as u32, "C13 the success value is dropped exactly once (any payload class)");
+    kani::cover!(is_ok, "ok");
+    kani::cover!(!is_ok, "err");
+}
+#[kani::proof] fn p_class_zst_drop() { roundtrip_class::<Zd>(|| Zd, true); }
+#[kani::proof] fn p_class_big() { roundtrip_class::<Pbig>(|| Pbig([9; 24]), false); }
+#[kani::proof] fn p_class_aligned_drop() { roundtrip_class::<Pal>(|| Pal { v: 1, heap: Box::new(1) }, true); }
+#[kani::proof] fn p_class_unit() { roundtrip_class::<()>(|| (), false); }
+//@ prefix=p_class kind=property clause=encode/decode round trip for every success-payload class (zero-sized with destructor, unit, large, over-aligned with destructor): 0 exactly for Ok, value moved once, Err reads and drops nothing
 #[kani::proof]
 fn p_encode_plain() {
     let e = any_code();
